@@ -366,7 +366,7 @@ def _w_instance_history(S_unused, wrapped):
     if module is None:
         raise AnalysisError('anchor-missing', 'entry kind %s does not call a module instance' % kind)
     from .. import nonlin as _nl
-    got = []
+    got, kept = [], []
     for nb, c, upd in variants:
         pv = dict(p, **upd)
         rb0 = len(_nl.REBASE_LOG)
@@ -376,6 +376,17 @@ def _w_instance_history(S_unused, wrapped):
         shared.take_findings()
         got.append(fingerprint(entries.flatten(o.value), ins, rb0) if o.kind == 'ok' else
                    (o.kind, getattr(o.exc, 'name', getattr(o.exc, 'rule', ''))))
+        kept.append((o.value, ins, rb0) if o.kind == 'ok' else None)
+    # results handed out earlier must not change when the instance is called again (no aliasing of module state)
+    for i, k in enumerate(kept):
+        res['cmp'] += 1
+        if k is not None and fingerprint(entries.flatten(k[0]), k[1], k[2]) != got[i]:
+            res['diff'] = 1
+            res['findings'].append(finding(
+                'R-PURE', label, 'earlier-result-changed',
+                '%s with %s: the result returned by call %d is changed by later calls on the same instance (the '
+                'returned containers / tensors alias state kept on the module)' % (label, p, i + 1)))
+            return res
     for i, (nb, c, upd) in enumerate(variants):
         pv = dict(p, **upd)
         fresh = Session(repo)
